@@ -26,7 +26,7 @@ MANIFEST = {
     "note": "Trusted: the respelling transformations preserve the denoted molecule (renumbering stays inside one element block; attributes and tuples are renamed consistently).",
     "technique": "property-based testing: metamorphic relation + idempotence over generated sentences (Hypothesis, 16 shards)",
 }
-FUZZ = {"procs": 12, "runs": 15000, "timeout": 3000}
+FUZZ = {"procs": 12, "runs": 15000, "timeout": 1500}
 ASSUMPTIONS = ["search, not proof"]
 
 
